@@ -128,11 +128,29 @@ class SList:
 class Stream:
     """input file: symbolic cells, concrete or symbolic length; read(n) returns min(n, remaining) cells"""
 
+    PIPE = False  # harness switch: model the input as a pipe (not seekable)
+
     def __init__(self, cells, name="input", length=None):
         self.cells = list(cells)
         self.pos = 0
         self.name = name
         self.length = len(self.cells) if length is None else length
+        self.pipe = Stream.PIPE
+
+    def seekable(self):
+        return not self.pipe
+
+    def tell(self):
+        if self.pipe:
+            raise Failure("UnsupportedOperation", "tell() on a pipe")
+        return self.pos
+
+    def seek(self, offset, whence=0):
+        if self.pipe:
+            raise Failure("UnsupportedOperation", "seek() on a pipe")
+        base = 0 if whence == 0 else self.pos if whence == 1 else len(self.cells)
+        self.pos = max(0, min(len(self.cells), base + int(offset)))
+        return self.pos
 
     def read(self, n=None):
         if n is None or n < 0:
@@ -325,7 +343,14 @@ class Interp:
             return o.name
         if isinstance(o, (Stream, Sink, SList, Bytes, Writer)) or (isinstance(o, str) and n.attr in ("format", "join")):
             return ("attr", o, n.attr)
-        return getattr(o, n.attr)
+        if isinstance(o, Intrinsic):
+            if o.fn is i_int and n.attr == "from_bytes":
+                return Intrinsic(i_from_bytes)
+            raise HarnessGap(f"attribute {n.attr!r} of a modelled builtin")
+        try:
+            return getattr(o, n.attr)
+        except AttributeError:
+            raise HarnessGap(f"attribute {n.attr!r} of {type(o).__name__}")
 
     def e_IfExp(self, n, env):
         c = self.ev(n.test, env)
@@ -636,6 +661,9 @@ class Interp:
                 return o.read(n)
             if name == "close":
                 return None
+            if name in ("seek", "tell", "seekable"):
+                cargs = [self.concretize(a, 1 << 16) if is_sym(a) else (0 if a is None else a) for a in args]
+                return getattr(o, name)(*cargs)
             if name == "name":
                 return o.name
         if isinstance(o, Sink):
@@ -872,6 +900,9 @@ class Fmt:
         self.template = template
         self.args = args
 
+    def __repr__(self):
+        return f"Fmt({self.template!r}, {[str(a) for a in self.args]})"
+
 
 class SymRange:
     def __init__(self, n, bound):
@@ -956,6 +987,28 @@ def i_int(I, x, base=None):
     if is_sym(x):
         return x
     return int(x) if base is None else int(x, base)
+
+
+def i_from_bytes(I, data, byteorder="big", signed=False):
+    """int.from_bytes on a (possibly empty) sequence of symbolic bytes"""
+    if signed:
+        raise HarnessGap("int.from_bytes(signed=True)")
+    cells_ = list(data.cells) if isinstance(data, (Bytes, SList)) else [c for c in data]
+    if byteorder == "little":
+        cells_ = cells_[::-1]
+    if not cells_:
+        return 0
+    if len(cells_) > 3:
+        raise HarnessGap("int.from_bytes of more than 3 bytes")
+    if all(isinstance(c, int) for c in cells_):
+        v = 0
+        for c in cells_:
+            v = v * 256 + c
+        return v
+    t = bv(0)
+    for c in cells_:
+        t = t * bv(256) + term(c)
+    return Sym(z3.simplify(t), 0, 256 ** len(cells_) - 1)
 
 
 def i_join(I, x):
